@@ -715,3 +715,65 @@ def run(ctx):
     # embedding, agree (a Levy-area Jacobian term that silently vanishes for one of them shows here; rule of C17)
     from . import c17
     ctx.guard(c17.r17_1)
+
+
+# ------------------------------------------------------------------------------------------------ R16.10
+def r16_10(ctx):
+    """'A solver that needs a method ... fails with an explicit error instead of computing something else.'  The operators
+    the library derives by differentiating the user's drift / diffusion (the g dg v Milstein term, the Levy-area Jacobian
+    sums, every adjoint vjp) all go through misc.vjp / misc.jvp, which ask autograd with allow_unused=True and turn a missing
+    derivative into zeros.  Under torch.inference_mode() nothing is recorded -- torch.enable_grad() does not switch
+    recording back on there -- so every such derivative would silently be an exact zero (Milstein becomes Euler, log-ODE
+    becomes midpoint).  The two helpers are evaluated with torch.is_inference_mode_enabled() answering True: they must
+    raise before they reach torch.autograd.grad."""
+    rep, model = ctx.rep, ctx.model
+    rep.rule("R16.10", "misc.vjp / misc.jvp refuse to run under torch.inference_mode() (where autograd records nothing and their "
+                       "allow_unused / None-to-zero convention would return silent zeros)")
+    MISC = "torchsde/_core/misc.py"
+    for name in ("vjp", "jvp"):
+        fi = model.func(MISC, name)
+        rep.analysed(fi)
+        reached = []
+
+        class H(Hooks):
+            def external_call(self, interp, dotted, args, kwargs, node, f2):
+                if dotted == "torch.is_inference_mode_enabled":
+                    return True
+                if dotted == "torch.autograd.grad":
+                    reached.append(node)
+                    return [nf.sym("GRAD")]
+                if dotted == "torch.is_tensor":
+                    return isinstance(args[0], Rat)
+                if dotted in ("torch.as_strided", "torch.zeros_like"):
+                    return nf.sym("DUMMY")
+                return NotImplemented
+
+            def tensor_attr(self, interp, recv, name_, node, f2):
+                if name_ == "requires_grad":
+                    return True
+                return NotImplemented
+        it = Interp(model, H())
+        raised = None
+        try:
+            it.call_function(fi, [], {"outputs": nf.sym("OUT"), "inputs": nf.sym("IN"), "grad_outputs": nf.sym("GO"),
+                                      "allow_unused": True} if name == "vjp" else
+                             {"outputs": nf.sym("OUT"), "inputs": nf.sym("IN"), "grad_inputs": nf.sym("GI"), "allow_unused": True})
+        except SimRaise as e:
+            raised = e
+        except AnalysisError:
+            pass
+        ok = raised is not None and not reached
+        rep.check(ok, "R16.10", astq.loc(fi), f"{fi.key}::R16.10::inference-mode",
+                  f"misc.{name} under torch.inference_mode(): {'reaches torch.autograd.grad' if reached else 'returns'} without an "
+                  f"error; autograd records nothing there, the outputs are re-rooted as fresh leaves and the missing derivative is "
+                  f"turned into zeros, so derivative-based Milstein silently becomes Euler and log-ODE midpoint",
+                  "explicit error")
+    ctx.floor("R16.10", 2)
+
+
+_run_before_r16_10 = run
+
+
+def run(ctx):
+    _run_before_r16_10(ctx)
+    ctx.guard(r16_10)
